@@ -1,6 +1,10 @@
 package cdesc
 
-import "verifharness/vh"
+import (
+	"fmt"
+
+	"verifharness/vh"
+)
 
 // GenUniverse draws a type universe: one of four fixed shapes or a random graph.
 func GenUniverse(r *vh.Rand, tag string) (*Universe, string) {
@@ -147,4 +151,67 @@ func GenRich(r *vh.Rand, tag string) (*Universe, string) {
 		}
 	}
 	return u, "rich-" + why
+}
+
+// GenCollide draws a universe and adds one or two pairs of messages with ONE schema name: a message
+// N<a> nested in a message M<p>, and a top-level message M<p>_N<a> of the same package (valid
+// protobuf; lib/j5schema names both pkg.M<p>_N<a>). The two differ in their reference fields
+// whenever the draw allows it, and other messages refer to one of them or to both.
+func GenCollide(r *vh.Rand, tag string) (*Universe, string) {
+	u, why := GenUniverse(r, tag)
+	for pairs := r.Range(1, 2); pairs > 0; pairs-- {
+		var parents []int
+		for i, n := range u.Nodes {
+			if n.Kind == KMsg && n.Nest == 0 && n.Twin == 0 {
+				parents = append(parents, i)
+			}
+		}
+		if len(parents) == 0 {
+			break
+		}
+		p := vh.Pick(r, parents)
+		pkg := u.Nodes[p].Pkg
+		var cand []int
+		for j := range u.Nodes {
+			if u.Nodes[j].Pkg <= pkg {
+				cand = append(cand, j)
+			}
+		}
+		draw := func() ([]int, []int) {
+			refs, shape := []int{}, []int{}
+			for k := r.Intn(3); k > 0; k-- {
+				refs = append(refs, vh.Pick(r, cand))
+				shape = append(shape, FSingle)
+			}
+			return refs, shape
+		}
+		a := len(u.Nodes)
+		b := a + 1
+		ra, sa := draw()
+		rb, sb := draw()
+		if fmt.Sprint(ra) == fmt.Sprint(rb) {
+			// make them differ: the twin gets one more field
+			rb = append(append([]int{}, rb...), vh.Pick(r, cand))
+			sb = append(append([]int{}, sb...), FSingle)
+		}
+		u.Nodes = append(u.Nodes,
+			Node{Kind: KMsg, Pkg: pkg, Nest: p + 1, Refs: ra, Shape: sa},
+			Node{Kind: KMsg, Pkg: pkg, Twin: a + 1, Refs: rb, Shape: sb})
+		// referrers: messages of a package that may import pkg
+		for i := range u.Nodes[:a] {
+			n := &u.Nodes[i]
+			if n.Kind != KMsg || n.Pkg < pkg || n.Wrapper || !r.Chance(40) {
+				continue
+			}
+			switch r.Intn(3) {
+			case 0:
+				n.Refs, n.Shape = append(n.Refs, a), append(n.Shape, FSingle)
+			case 1:
+				n.Refs, n.Shape = append(n.Refs, b), append(n.Shape, FSingle)
+			default:
+				n.Refs, n.Shape = append(n.Refs, a, b), append(n.Shape, FSingle, FSingle)
+			}
+		}
+	}
+	return u, "collide-" + why
 }
